@@ -144,5 +144,116 @@ def job_storage(job):
         job.validate("alpha_multiphase", evalf(al, e, ufs), float(fp.alpha_multiphase(env["p"], env["So"], env["phi"], env["Sw"], real_pvt, real_kr)), rel=1e-6, inputs=env)
 
 
+COLS = ("Bo", "Bg", "Bw", "Rs", "Rv", "mu_o", "mu_g", "mu_w", "So")
+
+
+def replay_tabulated(model, n=3, order="ascending", node=1):
+    """from_table on the model's table (rows in the given order): tabulated alpha vs lambda/c evaluated with
+    independently built (sorted) interpolators."""
+    import warnings
+    import numpy as np
+    from scipy.interpolate import interp1d
+    from bluebonnet.flow import flowproperties as fp
+    names = [f"p{k}" for k in range(n)] + [f"{c}{k}" for c in COLS for k in range(n)] + list(RHO) + \
+        [f"{c}{k}" for c in KR_FUNCS for k in range(2)] + ["phi", "Sw"]
+    m = model_floats(model, names, default={k: 0.5 for k in names})
+    ps = np.array([m[f"p{k}"] for k in range(n)])
+    if np.any(np.diff(ps) < 1.0):
+        ps = ps[0] + np.arange(n) * max(1.0, float(np.max(np.abs(np.diff(ps)))))
+    tab = {"pressure": ps, "pseudopressure": np.zeros(n)}
+    for c in COLS:
+        tab[c] = np.array([m[f"{c}{k}"] for k in range(n)])
+    tab["So"] = np.clip(tab["So"], 0.0, 1.0)
+    krp = {"So": np.array([0.0, 1.0]), "Sg": np.array([1.0, 0.0]), "Sw": np.array([0.0, 0.0])}
+    for c in KR_FUNCS:
+        krp[c] = np.array([m[f"{c}{k}"] for k in range(2)])
+    ref_pvt = {c: interp1d(ps, tab[c], fill_value="extrapolate") for c in COLS}
+    ref_pvt.update({k: m[k] for k in RHO})
+    ref_kr = {c: interp1d(krp["So"], krp[c]) for c in KR_FUNCS}
+    given = {k: (v[::-1].copy() if order == "descending" else v) for k, v in tab.items()}
+    with warnings.catch_warnings():
+        warnings.simplefilter("ignore")
+        with np.errstate(all="ignore"):
+            try:
+                obj = fp.FlowPropertiesTwoPhase.from_table(given, krp, {k: m[k] for k in RHO}, m["phi"], m["Sw"], float(ps[node]))
+            except Exception as ex:  # noqa: BLE001
+                return True, {"what": f"from_table raised {ex!r} on an admissible table in {order} row order", "inputs": m}
+            got = np.asarray(obj.pvt_props["alpha"], float)
+            pg = np.asarray(given["pressure"], float)
+            want = np.array([float(fp.alpha_multiphase(float(pg[j]), float(given["So"][j]), m["phi"], m["Sw"], ref_pvt, ref_kr)) for j in range(n)])
+    ok = np.isfinite(want)
+    bad = bool(np.any(np.abs(got[ok] - want[ok]) > 1e-7 * np.abs(want[ok])))
+    return bad, {"what": f"from_table ({order} rows): tabulated alpha {got.tolist()} vs total mobility / storage derivative of the same table "
+                         f"{want.tolist()}", "inputs": m}
+
+
+def job_tabulated(job, n, order, node=1):
+    """`FlowPropertiesTwoPhase.from_table(...).pvt_props['alpha']` row by row against lambda/c of the same table, rows
+    listed in ascending or descending pressure order (lab reports list pressures top-down; the library's interpolators
+    sort, so both are the same table)."""
+    mod = _load()
+    job.encoded(mod, "FlowPropertiesTwoPhase.from_table", "alpha_multiphase", "lambda_combined_func", "compressibility_combined_func")
+    job.stub("scipy interp1d: exact piecewise-linear model incl. argsort of the abscissae / assume_sorted")
+    job.bound(tabulated_rows=n, row_order=order, spacing="neighbouring table pressures at least 1 psi apart (the +-0.5 psi probes stay in the neighbouring intervals)")
+    ps, dom = [], []
+    for k in range(n):
+        v = fresh(f"p{k}", pos=True)
+        ps.append(v)
+        if k:
+            dom.append(T.b_le(P(ps[k - 1] + 1), P(v)))
+    dom += [T.b_le(T.Poly.const(10), P(ps[0])), T.b_le(P(ps[-1]), T.Poly.const(30000))]
+    from ..shims.np_shim import SymArray
+    cols = {"pressure": list(ps), "pseudopressure": [Q(0)] * n}
+    for c in COLS:
+        cols[c] = [fresh(f"{c}{k}", pos=True) for k in range(n)]
+        if c == "So":
+            dom += [T.b_le(P(v), T.ONE) for v in cols[c]]
+    krt = {"So": SymArray([Q(0), Q(1)], "f8"), "Sg": SymArray([Q(1), Q(0)], "f8"), "Sw": SymArray([Q(0), Q(0)], "f8")}
+    for c in KR_FUNCS:
+        krt[c] = SymArray([fresh(f"{c}{k}", pos=True) for k in range(2)], "f8")
+    vs, rdom = box(None, rho_o0=("0.1", 100), rho_g0=("0.001", 10), rho_w0=("0.1", 100), phi=("0.01", 1), Sw=(0, "0.5"))
+    dom = dom + rdom
+    ref = {k: vs[k] for k in RHO}
+    idx = list(range(n)) if order == "ascending" else list(range(n - 1, -1, -1))
+    rp = (replay_tabulated, {"n": n, "order": order, "node": node})
+
+    def run():
+        tab = {k: SymArray([v[j] for j in idx], "f8") for k, v in cols.items()}
+        obj = mod.FlowPropertiesTwoPhase.from_table(tab, krt, ref, vs["phi"], vs["Sw"], ps[node])
+        ref_pvt = {c: SS.Interp1d(SymArray(list(ps), "f8"), SymArray(list(cols[c]), "f8"), fill_value="extrapolate") for c in COLS}
+        ref_pvt.update(ref)
+        ref_kr = {c: SS.Interp1d(krt["So"], krt[c]) for c in KR_FUNCS}
+        want = [mod.alpha_multiphase(ps[j], cols["So"][j], vs["phi"], vs["Sw"], ref_pvt, ref_kr) for j in idx]
+        return obj.pvt_props["alpha"], want
+
+    res = paths(job, run, dom, max_paths=64)
+    normal = 0
+    for k, pr in enumerate(res):
+        tag = f"tabulated[{n} rows,{order}]"
+        if pr.exc is not None:
+            if isinstance(pr.exc, SS.NonMonotoneAbscissae):
+                continue            # a scaled pseudopressure that is not monotone: C15's subject
+            job.prove(f"{tag}/raises {type(pr.exc).__name__}[path{k}]", pr.pc, bound=f"{n}-row table", note=repr(pr.exc)[:100], replay=rp)
+            continue
+        normal += 1
+        got, want = pr.value
+        if len(got.d) != n:
+            job.errors.append(f"{tag}: alpha column has {len(got.d)} rows")
+            continue
+        for j in range(n):
+            d = T.p_sub(P(got.d[j]), P(want[j]))
+            if d.is_zero() or T.rational_equal(P(got.d[j]), P(want[j])):
+                job.record(f"{tag}/alpha[{j}]==lambda/c of the same table[path{k}]", "unsat", 0.0, note="syntactically identical")
+            else:
+                job.prove(f"{tag}/alpha[{j}]==lambda/c of the same table[path{k}]", pr.pc + [T.b_not(T.b_eq0(d))], bound=f"{n}-row table", replay=rp)
+        job.prove(f"{tag}/reach[path{k}]", pr.pc, expect="sat")
+    if not normal:
+        job.errors.append(f"tabulated[{n},{order}]: no path constructs the object")
+
+
 def jobs(tier):
-    return [("storage", job_storage)]
+    out = [("storage", job_storage), ("tabulated-3-asc", lambda j: job_tabulated(j, 3, "ascending")),
+           ("tabulated-3-desc", lambda j: job_tabulated(j, 3, "descending"))]
+    if tier != "quick":
+        out += [("tabulated-4-asc", lambda j: job_tabulated(j, 4, "ascending", 2)), ("tabulated-4-desc", lambda j: job_tabulated(j, 4, "descending", 2))]
+    return out
